@@ -21,6 +21,7 @@ RULE = ("layer histories: every sequence of <=k parse calls (menu of 16 inputs: 
         "mutable module/class state. layer schedules: 2-3 concurrent parses as greenlets switching before every token pull, all "
         "schedules with <=p preemptions (separate lexers and one shared lexer). layer processes: outcome digest of a corpus in fresh "
         "subprocesses for 6 hash seeds x 3 import orders. layer rewriter: AliasRewriter with instances taken from every history state. "
+        "layer finalisers: the suspended token generator of a parse that raised is closed at every line-event placement during the next parse. "
         "non-trivial = distinct (history, probe) pairs whose history contains a raising call or whose schedule has >=1 preemption.")
 ASSUMPTIONS = ["token pulls are the only points where two pure-python parses can interleave on one thread",
                "hash seeds {0,1,2,3,4,random} and 3 import orders stand for 'any'"]
@@ -301,6 +302,77 @@ print(json.dumps({"outcomes": h.hexdigest(), "table": th, "re": hashlib.sha1(ODa
 '''
 
 
+# ---------------------------------------------------------------- deferred finalisers
+# A parse that raises in the parser leaves its token generator suspended. Whoever still holds the exception (a caller's local, a
+# logging record, a traceback cycle waiting for the cyclic collector) decides WHEN that generator is finalised, and finalisation
+# runs lexer code (generator.close() -> the tokenizer's cleanup). The moment is an environment choice: this layer owns it and
+# enumerates every placement - before every line event executed while the next text is tokenised and parsed on the same instances.
+FIN_HISTORIES = ["x in 1 or y eq 2", "a eq eq 1", "a eq 1 )", "x eq 1 and zz(y) and z eq 2", "length(a, b) eq (1", "(1, 2,", "a eq 1 $"]
+FIN_PROBES = ["a eq 1 and b eq 2", "a in 1 or b in (1,2,3)", "xs/any(x: x/p gt 1) and not (b lt 2)", "contains(tolower(name), 'x') eq true", "a eq", "$a eq 1"]
+
+
+def _raise_and_keep(lexer, parser, text):
+    """parse text on the shared instances; return the (possibly still suspended) token generator"""
+    gen = lexer.tokenize(text)
+    try:
+        parser.parse(gen)
+    except exceptions.ODataException:
+        pass
+    return gen
+
+
+def _probe_with_finaliser(hist, probe, at):
+    """at=None: count the placements; at=n: finalise the pending generator just before the n-th line event of the probe"""
+    lexer, parser = ODataLexer(), ODataParser()
+    pending = _raise_and_keep(lexer, parser, hist)
+    n = [0]
+
+    def tracer(frame, event, arg):
+        if event == "line":
+            if n[0] == at:
+                sys.settrace(None)
+                pending.close()
+                n[0] += 1
+                sys.settrace(tracer)
+                return tracer
+            n[0] += 1
+        return tracer
+
+    sys.settrace(tracer)
+    try:
+        oc = outcome_of(lexer, parser, probe)
+    finally:
+        sys.settrace(None)
+    if at is not None and n[0] <= at:
+        pending.close()
+    return oc, n[0]
+
+
+def _finaliser_unit(unit):
+    acc = Acc()
+    for hist, probe in unit:
+        want = fresh_outcome(probe)
+        base, total = _probe_with_finaliser(hist, probe, None)
+        acc.count("states")
+        if base != want:
+            acc.violation("finaliser:never-run:" + want[0], {"layer": "finalisers", "history": hist, "probe": probe, "at": None,
+                                                             "expected": want, "observed": base})
+            continue
+        for at in range(total):
+            oc, _ = _probe_with_finaliser(hist, probe, at)
+            acc.count("executions")
+            acc.count("transitions")
+            acc.count("nontrivial")
+            acc.outcome(("finaliser", oc[0]))
+            if oc != want:
+                acc.violation("finaliser:%s->%s" % (want[0], oc[0]), {"layer": "finalisers", "history": hist, "probe": probe, "at": at,
+                                                                       "placements": total, "expected": want, "observed": oc})
+                break
+        acc.sample({"layer": "finalisers", "history": hist, "probe": probe, "placements": total}, cap=1)
+    return acc
+
+
+
 def build_corpus():
     from checks.C10 import ATOMS, corpus
     out = list(corpus())
@@ -376,7 +448,7 @@ def rewriter_check(ctx, witness):
 def run(ctx):
     sched_texts = ["a eq 1", "b in (1, 2)", "a eq", "xs/any(x: x/p gt 1)", "zz(1) eq 2", "a add 1 eq 2", "$a", "not (a eq 1)", "length(a, b)",
                    "a/b/c eq 'x'", "b lt 2", "c/d ge 3", "zz(1)", "(1, 2)"]
-    prime_fresh_outcomes(list(dict.fromkeys(MENU + sched_texts)))
+    prime_fresh_outcomes(list(dict.fromkeys(MENU + sched_texts + FIN_PROBES)))
     # 1. all histories (no dedup)
     k = 3 if ctx.quick else 4
     hs = list(all_histories(k, 1))
@@ -419,12 +491,23 @@ def run(ctx):
     if (s1.order, s1.results) != (s2.order, s2.results):
         raise RuntimeError("scheduler replay is not deterministic")
 
-    # 5. processes
+    # 5. deferred finalisers
+    combos = [(h, p_) for h in FIN_HISTORIES for p_ in FIN_PROBES]
+    ctx.pmap(_finaliser_unit, [combos[i::32] for i in range(32)])
+    ctx.layer("finalisers", histories=len(FIN_HISTORIES), probes=len(FIN_PROBES), exhaustive=True,
+              note="the token generator of a parse that raised is finalised before every line event of the next parse on the same instances")
+
+    # 6. processes
     run_processes(ctx)
 
 
 def replay(ctx, case):
     layer = case["layer"]
+    if layer == "finalisers":
+        prime_fresh_outcomes([case["probe"]])
+        oc, _ = _probe_with_finaliser(case["history"], case["probe"], case["at"])
+        want = fresh_outcome(case["probe"])
+        return {"history": case["history"], "probe": case["probe"], "at": case["at"], "expected": want, "observed": oc, "ok": oc == want}
     if layer in ("histories", "states", "rewriter"):
         hist = [tuple(h) for h in case["history_idx"]]
         if layer == "rewriter":
